@@ -62,6 +62,18 @@ CLAIMED = {
         text="GridFile.tla gives files register semantics (a read returns the last write, all of it), model-checked with overwrites; the trace spec applies it to NssGrid.write/read in HDF5 and FITS over grids of 1-4 dimensions, extents 1-3, dtypes f8/f4/i4/i8, ASCII/Unicode names (bitwise comparison of data, axes, names, shape). Slices at nodes, midpoints and thirds (by index and by name) are recomputed by TLC as the stored sub-grid / linear blend; vec_1d_interp rows with plateaus are compared with ordinary piecewise-linear interpolation; AxesSound, RowsSound (0..1 within 1e-15), PexitSound and TauAboveMass are evaluated by TLC over every node and cell of nu2tau_cdf/pexit.1-3.",
         note="Assumes: FITS big-endian arrays compared by value; non-ASCII axis names are outside the FITS half of the quantifier; byte-level formats are not modelled (API-level Read o Write).",
         design="4/C18"),
+    "C12": dict(
+        category="model_checking",
+        technique="TLA+ spec Spectrum.tla (CDF/quantile with expm1/log1p, integral) model-checked on a lattice incl. index 1 and 1 +- ulp; Spectra(config)(N) events under a scripted / recorded np.random validated by TraceSpectrum.tla (backward error CDF(x) = u)",
+        text="MCSpectrum checks backward error, range, monotonicity and end points of the specified quantile for indices {0, 1/2, 1-ulp, 1, 1+ulp, 2, 2.2, 3, 4} x three ranges x nine u values including 0, 5e-324 and 1. The code is driven with prescribed uniforms (incl. 0, denormals and the number that maps to u = 1) through an np.random shim that records what the code actually received, and with the real generator under a recorder; per event TLC checks CDF(x) = u to 1e-9 (well conditioned where the inverse is not), the range, exactness for mono spectra, N in {0, 1, 7, many}, and that the two returned factors are finite, equal 1/I and I, and multiply to 1.",
+        note="Assumes: uniforms are paired with events only when exactly one draw per event in event order was observed (otherwise only range/factor clauses apply).",
+        design="4/C12"),
+    "C19": dict(
+        category="model_checking",
+        technique="TLA+ spec StdAtmosphere.tla over the shipped layer table (exported constants, TableSound) model-checked on a 0..120 km lattice + all layer boundaries +- 60 ulps; both shipped copies traced and validated by TraceAtmosphere.tla",
+        text="MCStdAtmosphere walks altitudes 0..120 km in 50 m (quick) / 1 m (thorough) steps and each layer boundary +- 60 ulps: round trips within the property's own tolerances, positivity, near-monotonicity (3e-7), end points 0 <-> inf, continuity of the table. Both copies are called on ascending series, boundary neighbourhoods, pressure grids and tabulated base pressures +- 30 ulps, as arrays, 0-d arrays and scalars; per point TLC compares with the spec (1e-12), the copies bit for bit, the code's own round trips and, statefully along a series, the 3e-7 step bound.",
+        note="Assumes: the layer table is implementation data (nuspacesim.constants) exported to TLC; its soundness, not its numerical values, is checked.",
+        design="4/C19"),
 }
 
 NOT_BUILT_REASON = "not claimed yet: its specification module and binding are not finished in this tree (see DESIGN.md section 9 build order); no other technique is substituted"
